@@ -9,7 +9,7 @@ from .common import LEAN, REPO, write_if_changed
 sys.path.insert(0, str(Path(__file__).resolve().parent.parent))
 
 
-ALL = ("scopemap", "builtin", "envconfig", "checkapi", "skeletons")
+ALL = ("scopemap", "builtin", "envconfig", "checkapi", "skeletons", "alias")
 
 
 def regenerate(which=("scopemap",)) -> dict:
@@ -31,6 +31,9 @@ def regenerate(which=("scopemap",)) -> dict:
     if "skeletons" in which:
         from extract import skeletons
         write_if_changed(gen / "Skeletons.lean", skeletons.render(REPO))
+    if "alias" in which:
+        from extract import alias_skeletons
+        write_if_changed(gen / "AliasSkeletons.lean", alias_skeletons.render(REPO))
     if "builtin" in which:
         from extract import builtin_checks
         write_if_changed(gen / "BuiltinChecks.lean", builtin_checks.render(REPO))
